@@ -47,7 +47,7 @@ theorem identity_from_token (P : SrvCfg) (env : Env) (now : Int) (rb : Bytes) (m
 /-- **valid_token_means** : what "valid" unfolds to — two segments, a header Go can decode whose
     `kid` (absent or empty = POOL) names a key `loadSigningKey` yields, a payload Go can decode,
     `now < exp` when `exp` is present, `iat ≥ now − maxAge` when `iat` is present and a maximum age
-    is in force; a time claim that is not a number refuses the token. -/
+    is in force, `nbf ≤ now` when `nbf` is present; a time claim that is not a number refuses the token. -/
 theorem valid_token_means (P : SrvCfg) (env : Env) (now : Int) (tok key : Bytes) (c : Claims) :
     ValidToken P env now tok key c ↔
     ∃ h p kidv, splitDots tok = [h, p] ∧ env.hdr h = .ok kidv ∧ kidv ≠ .nonStr ∧
@@ -56,7 +56,8 @@ theorem valid_token_means (P : SrvCfg) (env : Env) (now : Int) (tok key : Bytes)
       (match c.iat with
         | .bad => False
         | .num i => ¬ (maxAgeOf P.cfgMaxAge P.envMaxAge > 0 ∧ i < now - maxAgeOf P.cfgMaxAge P.envMaxAge)
-        | .absent => True) :=
+        | .absent => True) ∧
+      (match c.nbf with | .bad => False | .num n => n ≤ now | .absent => True) :=
   Iff.rfl
 
 /-- **possession_server** (clause 1, Dolev–Yao corollary). Let the peer be any party all of whose
@@ -179,6 +180,42 @@ theorem client_refused_stays_refused (env : Env) (s : AuthData) (m2 : List OutFr
     client id the two MAC inputs differ in the byte after the id, whatever the nonces. -/
 theorem no_reflection (cid sid ra rb rb' : Bytes) : macMsg2 cid sid ra rb ≠ macMsg3 cid rb' :=
   macMsg2_ne_macMsg3 cid sid ra rb rb'
+
+/-- **replay_rejected_server** (freshness is what makes the proof a demonstration). The client half
+    of an exchange a server accepted under its nonce `rb` — the same frames of messages 1 and 3,
+    byte for byte — is never accepted by a run that drew another nonce `rb'`, at any time, under any
+    key store: the recorded message 3 echoes `rb`, and the server compares the echo with its own
+    draw. That distinct runs draw distinct nonces is `crypto/rand`'s; the engine checks it on the
+    implementation (all RA / RB of a run pairwise distinct, same token on several connections). -/
+theorem replay_rejected_server (P P' : SrvCfg) (env : Env) (now now' : Int) (rb rb' : Bytes) (m1 m3 : List OutFrame)
+    (u u' : Option Bytes) (h : serverRun P env now rb m1 m3 = .accept u) (hne : rb' ≠ rb) :
+    serverRun P' env now' rb' m1 m3 ≠ .accept u' := by
+  intro h'
+  obtain ⟨w1, d1, _, _, _, w3, d3, hr1, _, _, _, _, _, hr3, _, _, _, hrb, _, _⟩ := (server_accept_iff ..).mp h
+  obtain ⟨w1', d1', _, _, _, w3', d3', hr1', _, _, _, _, _, hr3', _, _, _, hrb', _, _⟩ := (server_accept_iff ..).mp h'
+  rw [hr1] at hr1'
+  injection hr1' with e
+  injection e with e1 e2
+  subst e1; subst e2
+  rw [hr3] at hr3'
+  injection hr3' with e
+  injection e with e3 e4
+  subst e3
+  exact hne (hrb'.symm.trans hrb)
+
+/-- **replay_rejected_client**. A message 2 that a client accepted under its nonce `ra` is never
+    accepted by a run of a client (same or other token) that drew another nonce `ra'`. -/
+theorem replay_rejected_client (env : Env) (tokenStr tokenStr' : Bytes) (usable usable' : Bool) (ra ra' : Bytes)
+    (m2 : List OutFrame) (u u' : Option Bytes) (h : clientRun env tokenStr usable ra m2 = .accept u) (hne : ra' ≠ ra) :
+    clientRun env tokenStr' usable' ra' m2 ≠ .accept u' := by
+  intro h'
+  obtain ⟨_, _, _, _, w2, d2, _, hr2, _, _, _, hra, _, _⟩ := (client_accept_iff ..).mp h
+  obtain ⟨_, _, _, _, w2', d2', _, hr2', _, _, _, hra', _, _⟩ := (client_accept_iff ..).mp h'
+  rw [hr2] at hr2'
+  injection hr2' with e
+  injection e with e1 e2
+  subst e1
+  exact hne (hra'.symm.trans hra)
 
 /-- **verify_accepts_exactly** (clause 4). `VerifyIDToken` returns claims `cl` exactly when the
     (white-space trimmed) string has three segments, the header decodes, the key its `kid` names
@@ -310,5 +347,16 @@ example : verifyIDToken P { env with sigOf := fun _ => .ok (.raw [1]) } 600 clie
 example : verifyIDToken P { env with sigOf := fun _ => .ok (.sign [9] tok) } 600 clientToken = .error .sig := by decide   -- signed by another key
 example : verifyIDToken { P with ks := { dirSet := true } } env 600 clientToken = .error .noKey := by decide
 example : verifyIDToken P env 600 tok = .error .tokFormat := by decide
+
+-- nbf (fix F-C11-nbf-ignored): not yet valid / valid from now on / not a number
+example : checkTiming 600 3600 { nbf := .num 601 } = .error .notYet := by decide
+example : checkTiming 600 3600 { nbf := .num 600 } = .ok () := by decide
+example : checkTiming 600 3600 { nbf := .bad } = .error .badTime := by decide
+
+-- replay: the hypotheses of the two replay theorems are met by the accepted runs above
+example : serverRun P env 700 [5, 9] goodM1 goodM3 ≠ .accept (some [97]) :=
+  replay_rejected_server P P env 600 700 rb [5, 9] goodM1 goodM3 (some [97]) (some [97]) (by decide) (by decide)
+example : clientRun env clientToken true [7, 9] (m2 0 sub ra [50]) ≠ .accept none :=
+  replay_rejected_client env clientToken clientToken true true ra [7, 9] (m2 0 sub ra [50]) none none (by decide) (by decide)
 
 end Cedar.C11
